@@ -1,5 +1,4 @@
-import AnyDB.Generated.Orders
-import AnyDB.Generated.VecConsts
+import AnyDB.Generated.ConcOrders
 import AnyDB.Model.Publish
 import AnyDB.Model.PublishC
 
@@ -37,6 +36,31 @@ open AnyDB Publish
 
 def progInPlace : List Eff := [.copy, .setLen, .publish]
 def progReloc : List Eff := [.relocCopy, .copy, .move, .publish]
+
+/-! ### the programs are the extracted call orders -/
+
+/-- region-level calls of the in-place paths of `write_with` -/
+def effInPlace : String → Option Eff
+  | "dbWrite" => some .copy | "setLen" => some .setLen | _ => none
+/-- region-level calls of the relocation path: `set_start`, `set_reserved`, `set_len` run under one metadata write
+guard — one `move` -/
+def effReloc : String → Option Eff
+  | "dbCopy" => some .relocCopy | "dbWrite" => some .copy | "setStart" => some .move | _ => none
+/-- what raw `write()` does after `truncate_write` -/
+def vecTail (l : List String) : List Eff :=
+  ((l.dropWhile (· != "truncateWrite")).drop 1).filterMap (fun s => if s == "updateStoredLen" then some Eff.publish else none)
+
+/-- the two writer programs of the raw model ARE what the extractor read off `Region::write_with` (fits path,
+relocation path) followed by what raw `write()` does after `truncate_write`; a reader loads the length before it
+creates its rawdb Reader, and `Reader::new` takes start and length under one metadata guard -/
+theorem C09_programs :
+    Gen.wwFitsOrder.filterMap effInPlace ++ vecTail Gen.rawVecAppendOrder = progInPlace ∧
+    Gen.wwRelocateOrder.filterMap effReloc ++ vecTail Gen.rawVecAppendOrder = progReloc ∧
+    Gen.rawVecAppendOrder.head? = some "truncateWrite" ∧
+    Gen.roRawOneOrder = ["loadLen", "createReader"] ∧ Gen.roRawIntoOrder = ["loadLen", "createReader"] ∧
+    Gen.vecReaderOrder = ["lenParam", "createReader"] ∧
+    Gen.readerNewOrder = ["meta", "start", "len", "dropMeta", "mmap"] := by
+  decide
 
 /-- what must hold at each point of the running write -/
 def PhaseInv (s : Sys) : Prop :=
@@ -279,6 +303,19 @@ example : (step (run Sys.init [.wStart [7, 8] false progInPlace, .wStep, .wStep,
 end AnyDB.C09
 
 namespace AnyDB.PublishC
+
+/-! ### the program is the extracted call order -/
+
+def effComp : String → Option Eff
+  | "truncateWrite" => some .dataWrite | "pagesWrite" => some .lockIndex | "pagesPush" => some .indexUpdate
+  | "updateStoredLen" => some .publish | "pagesFlush" => some .unlockIndex | _ => none
+
+/-- both paths of compressed `write()` are: data, index lock, index update, publication, unlock — and a read-only
+clone loads the length before it takes the index read lock -/
+theorem C09_comp_programs :
+    Gen.compWriteFastOrder.filterMap effComp = prog ∧ Gen.compWriteSlowOrder.filterMap effComp = prog ∧
+    Gen.roCompIntoOrder = ["loadLen", "createReader", "pagesRead"] := by
+  decide
 
 /-! ### lemmas -/
 
